@@ -118,7 +118,7 @@ def main(tier, seed, replay=None):
                     continue
                 cases.append(("pattern", seed, idx, kinds, mask))
                 idx += 1
-    cases += [("random", seed, i) for i in range(400 if q else 20000)]
+    cases += [("random", seed, i) for i in range(2000 if q else 20000)]
     for r in common.run_sharded(run_case, cases):
         run.feed(r)
     run.assumptions = [
